@@ -1,11 +1,34 @@
 """C01 - every task handed to a ThreadPool runs exactly once (see DESIGN 5.0 / C01)."""
+import os
 import random
+import re
+import shutil
+import subprocess
 import pool_common as pc
+import vlib
 WHAT = 'ThreadPool runs every submitted task exactly once'
+
+
+def prove_abstraction(ctx):
+    """tlapm: for ANY task set and ANY behaviour of PoolAbs.tla - the abstraction ThreadPool.tla is checked to refine -
+    every task runs at most once, only after submission, and nothing is pending once the pool is gone"""
+    d = os.path.join(ctx.work, 'tlapm')
+    os.makedirs(d, exist_ok=True)
+    for f in ('PoolAbs.tla', 'PoolAbs_proofs.tla'):
+        shutil.copy(os.path.join(vlib.ROOT, pc.SPEC, f), d)
+    shutil.rmtree(os.path.join(d, '.tlacache'), ignore_errors=True)
+    p = subprocess.run(['timeout', '600', 'tlapm', '--threads', '4', '--toolbox', '0', '0', 'PoolAbs_proofs.tla'], cwd=d,
+                       stdout=subprocess.PIPE, stderr=subprocess.STDOUT, text=True)
+    m = re.search(r'All (\d+) obligations? proved', p.stdout)
+    if not m:
+        raise vlib.ToolError('tlapm did not prove PoolAbs_proofs.tla: ' + p.stdout[-1500:])
+    ctx.cov['tlapm'] = {'module': 'spec/pool/PoolAbs_proofs.tla', 'obligations': int(m.group(1)), 'proved': int(m.group(1)),
+                        'theorems': ['InitInv', 'StepInv', 'Safety']}
 
 
 def run(ctx):
     thorough = ctx.tier == 'thorough'
+    prove_abstraction(ctx)
     ctx.check_model(pc.SPEC, 'MCPool.tla', 'MC_q2_basic.cfg', WHAT, label='2 workers: fq racing the workers and the destructor',
                     workers=8, required=('TpAddWork', 'TpEnqueue', 'TpStop', 'TpRzJoined', 'FutexWait', 'FutexWake'), timeout=1500)
     if thorough:
